@@ -562,6 +562,6 @@ ob(name='seq_validate.validate_match', kind='BL', props=['C05', 'C15'], unit='se
 
 # thorough-only: mock_func with expectations in two sequences (concrete K), larger text shapes
 ob(name='world.call.mock_func.two_sequences', kind='BL', props=['C01', 'C02', 'C03', 'C05', 'C07', 'C08', 'C14', 'C15', 'C16', 'C17'], unit='world_ii', harness='h_world.c', entry='w_call', tier='thorough',
-   variants=[v for v in world_variants(2, 2, True) if not v[0].endswith('K22')], unwind=10, timeout=2400, bound=_BOUND % 'N=2 expectations, expectation 0 in both sequences, expectation 1 in 0..1 (both in both sequences: CBMC does not finish within 40 minutes, left out)', min_reach=0)
+   variants=[v for v in world_variants(2, 2, True) if not v[0].endswith('K22')], unwind=10, timeout=7200, bound=_BOUND % 'N=2 expectations, expectation 0 in both sequences, expectation 1 in 0..1 (both in both sequences: CBMC does not finish within 40 minutes, left out)', min_reach=0)
 ob(name='world.text.no_match_listing.three', kind='BL', props=['C15', 'C04', 'C08'], unit='world_ii', harness='h_world.c', entry='w_nomatch_text', tier='thorough',
    variants=_text_variants(3, 26, {'VP_EV_CAP': 12}), unwind=26, timeout=3600, min_reach=0, bound=_BOUND % 'N=3 expectations, two WITH clauses each; message = token log of capacity 24, event log of capacity 12')
